@@ -416,7 +416,17 @@ func (x *Exec) applyContract(st *State, fr *Frame, retTo ssa.Value, c *Contract,
 		pv := ps.fresh("panic_"+sanitize(key), sAny, nil)
 		ps.assume(x.panicKind(ps, pv, pc.PKind))
 		pe.panicVal = &pv
-		cond := x.evalBool(pe, pc.Expr, pc)
+		cond := tTrue
+		if !pc.Internal {
+			cond = x.evalBool(pe, pc.Expr, pc)
+		} else {
+			// conjuncts about the callee's own locals (now(x)) give callers nothing to assume; the others do
+			for _, part := range splitConj(pc.Expr) {
+				if !strings.Contains(exprStr(part), "now(") {
+					cond = tAnd(cond, x.evalBool(pe, part, pc))
+				}
+			}
+		}
 		if cond.S == "false" {
 			continue
 		}
@@ -597,7 +607,7 @@ func (x *Exec) namedType(name string) types.Type {
 // havocLoc forgets the value of one modifies-location in the callee's environment.
 func (x *Exec) havocLoc(st *State, env *specEnv, loc string, c *Contract) {
 	if loc == "heap" {
-		st.havocAll()
+		x.havocHeapAtCall(st)
 		return
 	}
 	if loc == "*" {
@@ -995,4 +1005,95 @@ func (x *Exec) intrinsic(st *State, fr *Frame, retTo ssa.Value, key string, fn *
 	}
 	x.finish(st, fr, retTo, res, deferred)
 	return true, nil
+}
+
+// havocHeapAtCall forgets the whole heap for a callee with `modifies heap`, except the boxes of local variables of
+// the active frames that no other code can write: a variable that escapes only into function literals which read it
+// (the usual `defer func() { ... s.x ... }()`) lives in a box nobody but its own function stores to.
+func (x *Exec) havocHeapAtCall(st *State) { x.havocHeapKeepBoxes(st, nil) }
+
+// havocHeapKeepBoxes: as above; variables in `stored` (assigned inside the loop being cut) are forgotten too.
+func (x *Exec) havocHeapKeepBoxes(st *State, stored map[*ssa.Alloc]bool) {
+	type kept struct {
+		ref Term
+		typ types.Type
+		val Val
+	}
+	var keep []kept
+	for _, fr := range st.frames {
+		for _, a := range sortedRegs(fr.regs) {
+			al, ok := a.(*ssa.Alloc)
+			if !ok || !al.Heap || !x.privateBox(al) || stored[al] {
+				continue
+			}
+			r, isT := fr.regs[al].(Term)
+			if !isT || r.Sort != sRef {
+				continue
+			}
+			et := al.Type().(*types.Pointer).Elem()
+			if _, isSlice := under(et).(*types.Slice); isSlice {
+				continue
+			}
+			if _, ok := x.sortOf(et); !ok {
+				continue
+			}
+			func() {
+				defer func() { recover() }()
+				keep = append(keep, kept{r, et, st.loadAt(nil, "box."+sanitize(et.String()), r, et, nil)})
+			}()
+		}
+	}
+	st.havocAll()
+	for _, k := range keep {
+		st.storeAt("box."+sanitize(k.typ.String()), k.ref, k.typ, k.val, nil)
+	}
+}
+
+// privateBox: every use of the variable's address is a load, a store *to* it by its own function, or a capture by a
+// function literal that (recursively) only loads it.
+func (x *Exec) privateBox(al *ssa.Alloc) bool {
+	if v, ok := x.privBox[al]; ok {
+		return v
+	}
+	if x.privBox == nil {
+		x.privBox = map[*ssa.Alloc]bool{}
+	}
+	var readOnly func(v ssa.Value, own bool) bool
+	readOnly = func(v ssa.Value, own bool) bool {
+		refs := v.Referrers()
+		if refs == nil {
+			return false
+		}
+		for _, in := range *refs {
+			switch n := in.(type) {
+			case *ssa.UnOp:
+				if n.Op != token.MUL || n.X != v {
+					return false
+				}
+			case *ssa.Store:
+				if !own || n.Addr != v || n.Val == v {
+					return false
+				}
+			case *ssa.DebugRef:
+			case *ssa.MakeClosure:
+				fn, ok := n.Fn.(*ssa.Function)
+				if !ok {
+					return false
+				}
+				for i, b := range n.Bindings {
+					if b == v {
+						if i >= len(fn.FreeVars) || !readOnly(fn.FreeVars[i], false) {
+							return false
+						}
+					}
+				}
+			default:
+				return false
+			}
+		}
+		return true
+	}
+	res := readOnly(al, true)
+	x.privBox[al] = res
+	return res
 }
